@@ -113,6 +113,9 @@ def has_quantifier(e):
         if x.get_id() in seen:
             continue
         seen.add(x.get_id())
+        if z3.is_quantifier(x) and x.is_lambda():
+            stack.extend(x.children())          # a lambda (array comprehension) is not a quantified formula: look inside its body
+            continue
         if z3.is_quantifier(x):
             r = True
             break
